@@ -5,6 +5,9 @@ HERE = os.path.dirname(os.path.dirname(os.path.abspath(__file__)))
 BASE = json.load(open('/root/.vp/BASELINE.json'))
 
 CHECKS = {
+ 'C03': dict(cat='exploration', sec='3/C03', technique='runtime monitoring: return values of the public grid API judged by an exact rational-arithmetic reference model over generated grids, points, rectangles and resolutions',
+   text='Generated grids (5 SRS, 6 bbox classes, 6 tile sizes, factor-2/sqrt2/free/explicit/single/min_res ladders, both origins) are probed through TileGrid.tile, tile_bbox, flip_tile_coord, supports_access_with_origin, get_affected_level_tiles, closest_level and get_affected_bbox_and_level; an independent Fraction model decides containment, shared edges, flip involution and rectangle preservation, required/forbidden/None/row-major tile lists, reported bbox and the level rule. Inputs concentrate on tile edges, +-1 ulp, the 1/10 px inset and stretch thresholds. The input space is continuous, so exploration with edge-directed generation is the attainable level.',
+   note='trusted: fractions.Fraction arithmetic and the 60-line model; tolerance tau=res/1000; the documented 0.1 px inset band and comparisons within 1e-12 of a stretch threshold are don\'t-care. threshold_res not generated.'),
  'C05': dict(cat='exploration', sec='3/C05', technique='runtime monitoring: operation histories on the real backends judged by a sequential dict model (history + executable model), bounded-exhaustive short histories + random long ones',
    text='Every history of store/bulk store/load/bulk load/is_cached/remove/reopen that the run generates is executed on the real backend objects (file x 6 layouts x link modes x dimensions, mbtiles, sqlite, geopackage +-levels, compact v1/v2) and every observable read is compared with a dict; exhaustive for histories of length <=2 (quick) / <=3 (thorough) over collision-prone 4-address alphabets, random beyond. Sampling level is right because the state space (addresses x histories) is unbounded; the collisions that matter are small and are enumerated.',
    note='trusted: the dict model, PIL png encoder for test values, local file system and sqlite3. Not covered: server-backed caches (redis, couchdb, s3, azure), concurrent histories (see C07/C08).'),
